@@ -113,7 +113,7 @@ def get_graphql_schema_from_path(schema_path: str) -> GraphQLSchema:
     """Get graphql schema build from provided path."""
     schema_str = load_graphql_files_from_path(Path(schema_path))
     graphql_ast = parse(schema_str)
-    schema: GraphQLSchema = build_ast_schema(graphql_ast, assume_valid=True)
+    schema: GraphQLSchema = build_ast_schema(graphql_ast, assume_valid_sdl=True)
     return schema
 
 
